@@ -58,6 +58,8 @@ def run(c):
         plan.append(("ptrace_step:" + st, 0.0))
         if not c.quick():
             plan.append(("ptrace_step:" + st, 0.02))
+    step_obs = []
+    STEP_NUM = {"tracer started#1": 0, "------#1": 1, "set ptrace option#1": 2, "ptrace stopped#1": 3}
     for k, (pt, d) in enumerate(plan):
         token = "tok%d_%d_%d" % (os.getpid(), c.seed, k)
         p = subprocess.Popen([exe, pt, token, scratch], stdout=subprocess.PIPE, stderr=subprocess.DEVNULL)
@@ -114,7 +116,23 @@ def run(c):
                     os.kill(q, signal.SIGKILL)
                 except OSError:
                     pass
+        if pt.startswith("ptrace_step:"):
+            step_obs.append((STEP_NUM.get(pt.split(":", 1)[1], 4), not (left or init_alive), pt, d))
         c.sample({"point": pt, "delay_ms": int(d * 1000), "processes_at_kill": len(before), "all_gone_after_s": round(took, 2)})
+    # the tracer-step runs against the launch model (child || tracer || kernel rules for a dead tracer), evaluated in Coq
+    from vlib import coq_list
+    body = ("From Coq Require Import List.\nImport ListNotations.\nFrom GS Require Import Tracer.LaunchDeath.\n"
+            "Fixpoint idx (i : nat) (l : list (nat * bool)) : list nat := match l with [] => [] | x :: r => (if crash_ok x then [] else [i]) ++ idx (S i) r end.\n"
+            "Definition M := Eval vm_compute in idx 0 %s.\nPrint M.\n" % coq_list(["(%d, %s)" % (n_, "true" if dead else "false") for n_, dead, _, _ in step_obs]))
+    dis = []
+    for i in c.parse_nums(c.parse_printed(c.coq_eval("launch", body, timeout=600), "M")):
+        dis.append({"relation": "crash_ok (what is left after the tracer's death at this step = what the launch model predicts)",
+                    "point": step_obs[i][2], "delay_ms": int(step_obs[i][3] * 1000), "all_dead_observed": step_obs[i][1]})
+    c.cov["correspondence_disagreements"] = len(dis)
+    if dis:
+        c.cov["disagreement_samples"] = dis[:5]
+        if not c.violations:
+            c.violation({"kind": "correspondence-broken", "theorems_no_longer_about_the_code": c.theorems, "disagreements": dis[:10]}, no_input=True)
     c.cov["crash_points"] = len(plan)
     c.cov["states"] = 3252
     c.cov["traces_validated_against_impl"] = len(plan)
